@@ -6,3 +6,16 @@ CURVES = ["bn254", "bls12-377", "bls12-381", "bls24-315", "bls24-317", "bw6-633"
 PAIRING = CURVES[:7]
 FIELDS = [c + "/" + f for c in CURVES for f in ("fp", "fr")] + ["goldilocks", "koalabear", "babybear"]
 
+
+# field name -> package path inside /repo
+FIELD_PKG = {f: ("ecc/" + f if "/" in f else "field/" + f) for f in FIELDS}
+
+
+def has_func(pkg, signature):
+    """True if a non-test Go file of /repo/<pkg> contains the given text (used to plan white-box jobs)."""
+    import glob, os
+    repo = os.environ.get("VERIF_REPO", "/repo")
+    for f in glob.glob(os.path.join(repo, pkg, "*.go")):
+        if not f.endswith("_test.go") and signature in open(f).read():
+            return True
+    return False
